@@ -1,4 +1,4 @@
-//@unit eeprom_device  props=C14  min_verified=2
+//@unit eeprom_device  props=C14,C12  min_verified=3
 // DeviceEeprom::write_word (src/eeprom/device_provider.rs) extracted whole: the retry loop of one EEPROM word write.
 // The device is the SII status register, which may report ANY status (or the read may fail) every time it is polled;
 // wait_while_busy is extracted too (rule R18: the busy poll runs under the EEPROM timeout).
@@ -28,20 +28,32 @@ pub struct MainDevice { pub timeouts: Timeouts }
 //@include prelude/timeouts.rs
 
 /// the status word of the SII interface as far as write_word looks at it (all other bits arbitrary)
-pub struct SiiControl { pub busy: bool, pub command_error: bool }
+pub struct SiiControl { pub busy: bool, pub command_error: bool, pub read_size: SiiReadSize }
+/*@type file=src/eeprom/types.rs name=SiiReadSize derive="Clone, Copy, PartialEq, Eq, Debug" @*/
+impl SiiReadSize {
+/*@fn file=src/eeprom/types.rs impl="impl SiiReadSize" name=chunk_len props=C12
+    ensures r == (if *self is Octets4 { 4u16 } else { 8u16 })
+@*/
+}
 
 /// the write request for a word address: derive-packed as [0x01, 0x02, lo, hi, 0, 0] (access = read/write, write strobe;
 /// Kani eeprom_alias::sii_write_request checks SiiRequest::write(..).pack() against these bytes for every address)
-pub struct SiiRequest { pub address: u16 }
+/// the read request: [0x00, 0x01, lo, hi, 0, 0] (read-only access, read strobe; Kani eeprom_alias::sii_read_request)
+pub struct SiiRequest { pub address: u16, pub is_write: bool }
 impl SiiRequest {
     #[verifier::external_body]
     pub fn write(address: u16) -> (r: Self)
-        ensures r.address == address
+        ensures r.address == address, r.is_write
+    { unimplemented!() }
+    #[verifier::external_body]
+    pub fn read(address: u16) -> (r: Self)
+        ensures r.address == address, !r.is_write
     { unimplemented!() }
 }
 pub open spec fn sii_write_bytes(a: u16) -> Seq<u8> { seq![0x01u8, 0x02u8, (a % 256) as u8, (a / 256) as u8, 0u8, 0u8] }
+pub open spec fn sii_read_bytes(a: u16) -> Seq<u8> { seq![0x00u8, 0x01u8, (a % 256) as u8, (a / 256) as u8, 0u8, 0u8] }
 impl EtherCrabWireWrite for SiiRequest {
-    open spec fn packed(&self) -> Seq<u8> { sii_write_bytes(self.address) }
+    open spec fn packed(&self) -> Seq<u8> { if self.is_write { sii_write_bytes(self.address) } else { sii_read_bytes(self.address) } }
     #[verifier::external_body]
     fn packed_len(&self) -> (r: usize) { 6 }
 }
@@ -63,6 +75,18 @@ impl WrappedRead {
         ensures r is Ok ==> (match self.command { Reads::Fprd { address, register } => register == 0x0502 ==> sii_status_read(address, r->Ok_0), _ => true })
     { unimplemented!() }
 }
+/// "a read of `len` bytes with this command, accepted only with working counter `wkc`, returned `data`"
+pub uninterp spec fn slice_read(cmd: Reads, wkc: Option<u16>, len: u16, data: Seq<u8>) -> bool;
+impl WrappedRead {
+    /// real body: src/command/reads.rs (unit `wrapped`)
+    #[verifier::external_body]
+    pub async fn receive_slice(self, maindevice: &MainDevice, len: u16) -> (r: Result<ReceivedPdu, Error>)
+        ensures r is Ok ==> slice_read(self.command, self.wkc, len, (r->Ok_0).data()) && (r->Ok_0).data().len() == len
+    { unimplemented!() }
+}
+pub assume_specification<T, E, F: FnOnce(&T)>[ Result::<T, E>::inspect ](r: Result<T, E>, f: F) -> (o: Result<T, E>)
+    requires r is Ok ==> f.requires((&r->Ok_0,)),
+    ensures o == r;
 impl WrappedWrite {
     /// real body: src/command/writes.rs (unit `wrapped`)
     #[verifier::external_body]
@@ -85,6 +109,18 @@ impl<'a> DeviceEeprom<'a> {
     ensures
         __brk0 is Ok ==> sii_status_read(self.configured_address, __brk0->Ok_0) && !(__brk0->Ok_0).busy,
     decreases __dl.left@
+@*/
+
+/*@fn file=src/eeprom/device_provider.rs impl="impl EepromDataProvider for DeviceEeprom<'_>" name=read_chunk subst="impl core::ops::Deref<Target = [u8]>=>ReceivedPdu" props=C12,C09
+    ensures
+        // one chunk: a READ request for exactly `start_word` goes to SiiControl (0x0502) of this device; once it reports not busy,
+        // the data register (0x0508) of this device is read with the length THE DEVICE announced in that status (4 or 8 octets)
+        // and those bytes are what is returned
+        r is Ok ==> reg_sent(Writes::Fpwr { address: old(self).configured_address, register: 0x0502 }, sii_read_bytes(start_word))
+            && exists|st: SiiControl| #[trigger] sii_status_read(old(self).configured_address, st) && !st.busy
+                && slice_read(Reads::Fprd { address: old(self).configured_address, register: 0x0508 }, Some(1u16),
+                              if st.read_size is Octets4 { 4u16 } else { 8u16 }, (r->Ok_0).data()),
+@closure 0 "|data: &ReceivedPdu|" of=inspect
 @*/
 
 /*@fn file=src/eeprom/device_provider.rs impl="impl EepromDataProvider for DeviceEeprom<'_>" name=write_word props=C14
